@@ -118,18 +118,23 @@ def run(ctx):
     samples_out = []
     configs = [(MODELLED, False, []), (MODELLED, False, ["-j2"]), (None, True, []), (None, True, ["-j4"]), (["gzip"], False, []), (["-gzip"], True, []),
                (["pyc", "pyc-zero-mtime"], True, []), (["pyc", "pyc-zero-mtime"], True, ["-j2"]), (["pyc", "pyc-zero-mtime"], True, ["-j5"]), (MODELLED, False, ["--check"]),
-               (["pyc-zero-mtime"], True, []), (["pyc-zero-mtime"], True, ["-j2"])]
+               (["pyc-zero-mtime"], True, []), (["pyc-zero-mtime"], True, ["-j2"]),
+               # the same files named by several arguments (every entry of the top directory by itself): hard links now span arguments
+               (MODELLED, False, ["SPLIT"]), (None, True, ["SPLIT"]), (MODELLED, False, ["SPLIT", "-j2"])]
     reference = {}
     for hsel, with_all, mode in configs:
         t, files = build_tree(rng, with_all)
         try:
             before = fh.snapshot(t.root)
-            args = ["-v"] + (["--handler=" + ",".join(hsel)] if hsel else []) + mode + [t.path("t")]
+            split = "SPLIT" in mode
+            mode = [m for m in mode if m != "SPLIT"]
+            paths = [t.path("t/" + e) for e in sorted(os.listdir(t.path("t")))] if split else [t.path("t")]
+            args = ["-v"] + (["--handler=" + ",".join(hsel)] if hsel else []) + mode + paths
             rc, out = fh.run_cli(args, epoch=samples.EPOCH, timeout=120)
             after = fh.snapshot(t.root)
             n += 1
             summ = fh.parse_summary(out)
-            label = "handlers=%s %s" % (",".join(hsel) if hsel else "default", " ".join(mode))
+            label = "handlers=%s %s%s" % (",".join(hsel) if hsel else "default", " ".join(mode), " (one argument per top-level entry)" if split else "")
             if len(samples_out) < 4:
                 samples_out.append({"case": label, "summary": summ})
             if "--check" in mode:
@@ -139,13 +144,13 @@ def run(ctx):
                 for kind, msg in judge(before, after, summ, label, out=out, two_handlers=(hsel is not None and "pyc" in hsel and "pyc-zero-mtime" in hsel)):
                     fails.append((kind, msg, label))
             key = (tuple(hsel) if hsel else None, with_all)
-            if not any(m.startswith("-j") for m in mode) and "--check" not in mode:
+            if not any(m.startswith("-j") for m in mode) and "--check" not in mode and not split:
                 reference[key] = summ
             elif key in reference and summ is not None and reference[key] is not None:
                 for k in ("processed", "replaced", "rewritten", "unsupported", "errors"):
                     if summ[k] != reference[key][k]:
                         fails.append(("parallel-counts-differ", "%s: %s=%d but the serial run reports %d" % (label, k, summ[k], reference[key][k]), label))
-            if hsel == MODELLED and not mode:
+            if hsel == MODELLED and not mode and not split:
                 nodes, inos = fh.nodes_with_dirs(t.root, before)
                 entries = [p.encode() for p in fh.visiting_order(out)]
                 mres = fh.model_walk_run(ctx, [{"id": "w", "nodes": nodes, "handlers": MODELLED, "epoch": samples.EPOCH, "check": False, "entries": entries,
